@@ -34,15 +34,19 @@ func (e *c15Env) issueAgreement() {
 		key := f.Name()
 		ok := len(gets) == 1 && len(sets) == 1 && len(loads) == 1
 		if ok {
-			gk, gv := c15VoteKeyVoter(r.info, gets[0])
-			ok = gk != nil && len(sets[0].Call.Args) == 4 && len(loads[0].Call.Args) == 2 &&
-				r.SameValue(gk, sets[0].Call.Args[1]) && r.SameValue(gk, loads[0].Call.Args[1]) && r.SameValue(gv, sets[0].Call.Args[2])
+			// the arguments are picked by the roles of the callee's parameters (where they
+			// end up in the storage key), not by their position
+			gk, gv := e.keyArgs(gets[0])
+			sk, sv := e.keyArgs(sets[0])
+			lk, _ := e.keyArgs(loads[0])
+			ok = gk != nil && gv != nil && sk != nil && sv != nil && lk != nil &&
+				r.SameValue(gk, sk) && r.SameValue(gk, lk) && r.SameValue(gv, sv)
 		}
 		c.Check("issue-agreement", key+"|get=set=load", f.Pos(), ok, "the vote read (getVote), the vote written (setVote) and the tally loaded (loadVoteResult) use the same issue key, and the same voter")
 		// the key is the Key() of the element of the voting catalog being iterated
 		okCat := false
 		if len(gets) >= 1 {
-			gk, _ := c15VoteKeyVoter(r.info, gets[0])
+			gk, _ := e.keyArgs(gets[0])
 			if gk == nil {
 				gk = gets[0].Call.Fun
 			}
@@ -149,12 +153,14 @@ func (e *c15Env) issueAgreement() {
 		}
 		if isMethod {
 			for _, s := range g.CallsTo(c15SetVote) {
-				c.Check("issue-agreement", f.Name()+"|setVote.key", s.Call.Pos(), len(s.Call.Args) == 4 && r.Field(s.Call.Args[1]) == issue, "the vote record is written under the command's issue key")
+				sk, _ := e.keyArgs(s)
+				c.Check("issue-agreement", f.Name()+"|setVote.key", s.Call.Pos(), sk != nil && r.Field(sk) == issue, "the vote record is written under the command's issue key")
 			}
 		}
 		if builds {
 			for _, s := range g.CallsTo(c15LoadVoteResult) {
-				c.Check("issue-agreement", f.Name()+"|loadVoteResult.key", s.Call.Pos(), len(s.Call.Args) == 2 && r.Field(s.Call.Args[1]) == issue, "the tally is loaded under the command's issue key")
+				lk, _ := e.keyArgs(s)
+				c.Check("issue-agreement", f.Name()+"|loadVoteResult.key", s.Call.Pos(), lk != nil && r.Field(lk) == issue, "the tally is loaded under the command's issue key")
 			}
 		}
 	}
@@ -163,11 +169,13 @@ func (e *c15Env) issueAgreement() {
 		g := f.Graph()
 		want := map[string]string{"OpvoteBP": "OPID", "OpvoteDAO": "PROPKEY"}
 		for _, s := range g.CallsTo(c15ValidateForVote) {
-			if len(s.Call.Args) != 5 {
-				c.Undecide("issue-agreement", c15ValidateSystemTx, "validateForVote no longer takes the vote key as its fifth argument")
+			vk, _ := e.keyArgs(s)
+			if vk == nil {
+				_, why := e.roleParam(c15ValidateForVote, c15IssueSink())
+				c.Undecide("issue-agreement", c15ValidateSystemTx, "the vote-key argument of validateForVote cannot be identified: "+why)
 				continue
 			}
-			class, r, v := classify(f, s.Call.Args[4])
+			class, r, v := classify(f, vk)
 			arm := ""
 			for name := range want {
 				if o := p.LookupObj("types", name); o != nil {
@@ -210,17 +218,6 @@ func (e *c15Env) issueAgreement() {
 		}
 	}
 	c.Floor("issue-agreement", 8)
-}
-
-// c15VoteKeyVoter returns the (issue key, voter) arguments of a getVote / GetVote call.
-func c15VoteKeyVoter(info *types.Info, s an.Site) (key, voter ast.Expr) {
-	if len(s.Call.Args) != 3 {
-		return nil, nil
-	}
-	if an.FuncName(s.Fn) == c15GetVoteEx {
-		return s.Call.Args[2], s.Call.Args[1] // GetVote(scs, voter, issue)
-	}
-	return s.Call.Args[1], s.Call.Args[2] // getVote(scs, key, voter)
 }
 
 // ---------------------------------------------------------------------------
@@ -532,8 +529,17 @@ func (e *c15Env) nameFlow() {
 			nw++
 			c.Check("name-flow", key+"|paid<"+cf.Name(), s.Call.Pos(), g.Dominated(s.Node, edges), "the registry is written only after the payment succeeded")
 			// creator becomes owner: the owner argument is the ID of the paying account
-			if cf.Name() == "contract/name.createName" && len(s.Call.Args) == 3 {
-				ov := r.Resolve(s.Call.Args[2])
+			if cf.Name() == "contract/name.createName" {
+				// the owner argument: the parameter of createName that ends up in NameMap.Owner
+				oi, why := -1, "field contract/name.NameMap.Owner not found"
+				if ownerF := p.LookupField("contract/name", "NameMap", "Owner"); ownerF != nil {
+					oi, why = e.roleParam(cf.Name(), &c15Sink{id: "owner", field: ownerF})
+				}
+				if oi < 0 || oi >= len(s.Call.Args) || s.Call.Ellipsis.IsValid() {
+					c.Undecide("name-flow", key+"|owner=payer", "the owner argument of createName cannot be identified: "+why)
+					continue
+				}
+				ov := r.Resolve(s.Call.Args[oi])
 				ok := ov.Call != nil && c15CalleeName(r.info, ov.Call) == "state.(*AccountState).ID" && r.SameValue(c15Recv(ov.Call), cs.Call.Args[0])
 				c.Check("name-flow", key+"|owner=payer", s.Call.Pos(), ok, "the account that pays for a new name becomes its owner")
 			}
